@@ -66,6 +66,18 @@ CHECKS = {
     design_ref="DESIGN.md section 4 C05",
     note="Convergence is observed, not derived. Corrupted plants are shown to be rejected by TLC on every run (anti-vacuity).",
     technique="TLC-verified planted instances + TLC trace validation against the classification contract"),
+ "C06": dict(
+    category="model_checking",
+    text="Presentation.tla defines the row re-encodings (scalar inequality as 1-dimensional 'q' cone or order-1 's' cone, row permutation) as "
+         "index maps; TLC proves for all tiny dims that each map is a bijection of the cells and preserves cone membership on a grid, and "
+         "emits the maps the harness uses to build the second presentation, plus the table of KKT solver names per entry point. For every "
+         "planted instance ~20 presentations (storage, each accepted KKT name, wrapper vs core entry, operator form with user KKT solver, start "
+         "points, re-encodings, variable permutation, objective scaling, GLPK/DSDP, junk above the diagonal) are solved and SameResult.tla "
+         "(memo state machine) is evaluated by TLC on one trace per problem; unsupported names must raise ValueError before any KKT call.",
+    design_ref="DESIGN.md section 4 C06",
+    note="'Same optimal value to solver tolerance' is abstracted as |obj1-obj2| <= 1e-5(1+|obj|) computed by the harness; uniqueness of x is not "
+         "decided, solutions are compared through the optimal value.",
+    technique="TLA+ index-map spec with TLC-proved theorems -> presentations built from TLC output; TLC memo-invariant over per-problem traces; name table replay"),
  "C07": dict(
     category="model_checking",
     text="(a) KktFactory.tla generates every history of Factor(W)/Solve(b) calls on one factory object up to a bound and states that a solve "
